@@ -237,6 +237,8 @@ func c01Menu() []namedSeg {
 	add("F4095/2", "frame", ref.TypedFrame(4095, 2, fillA))
 	add("F1077/4", "frame", ref.TypedFrame(1077, 4, fillA))
 	add("F1077/2", "frame", ref.TypedFrame(1077, 2, fillA))
+	add("Fcrc000000", "frame", ref.FrameWithCRC(1005, 19, fillA, 0))
+	add("FcrcFFFFFF", "frame", ref.FrameWithCRC(1077, 22, validTimestampFill, 0xFFFFFF))
 	add("F1087/3", "frame", ref.TypedFrame(1087, 3, fillA))
 	add("F1097/255", "frame", ref.TypedFrame(1097, 255, validTimestampFill))
 	add("F1127/256", "frame", ref.TypedFrame(1127, 256, validTimestampFill))
